@@ -26,12 +26,25 @@ def slc1(ctx: Ctx) -> None:
             inner = norm(s.targets[0])
     if not inner or not outer:
         raise AnalysisError("SLC-1: outer_frame/inner_frame bindings vanished")
-    dels = [s for s in ast.walk(fn) if isinstance(s, ast.Delete) and isinstance(s.targets[0], ast.Subscript) and norm(s.targets[0].value) == "frames"
-            and isinstance(s.targets[0].slice, ast.Slice)]
-    head = [d for d in dels if d.targets[0].slice.upper is None and d.targets[0].slice.lower is not None and norm(d.targets[0].slice.lower) == "spec.limit"]
-    tail = [d for d in dels if d.targets[0].slice.lower is None and d.targets[0].slice.upper is not None and norm(d.targets[0].slice.upper) == "-spec.limit"]
+    # the limit may be read once into a local
+    lim_names = {"spec.limit"} | {norm(a.targets[0]) for a in ast.walk(fn) if isinstance(a, ast.Assign) and norm(a.value) == "spec.limit"}
+    head, tail = [], []
+    for s_ in ast.walk(fn):
+        # del frames[limit:]  /  frames = frames[:limit]   keep the head;   del frames[:-limit]  /  frames = frames[-limit:]   keep the tail
+        if isinstance(s_, ast.Delete) and isinstance(s_.targets[0], ast.Subscript) and norm(s_.targets[0].value) == "frames" and isinstance(s_.targets[0].slice, ast.Slice):
+            sl = s_.targets[0].slice
+            if sl.upper is None and sl.lower is not None and norm(sl.lower) in lim_names:
+                head.append(s_)
+            elif sl.lower is None and sl.upper is not None and norm(sl.upper) in {"-" + x for x in lim_names}:
+                tail.append(s_)
+        elif isinstance(s_, ast.Assign) and norm(s_.targets[0]) == "frames" and isinstance(s_.value, ast.Subscript) and norm(s_.value.value) == "frames" and isinstance(s_.value.slice, ast.Slice):
+            sl = s_.value.slice
+            if sl.lower is None and sl.upper is not None and norm(sl.upper) in lim_names:
+                head.append(s_)
+            elif sl.upper is None and sl.lower is not None and norm(sl.lower) in {"-" + x for x in lim_names}:
+                tail.append(s_)
     if len(head) != 1 or len(tail) != 1:
-        ctx.R.fail("SLC-1", mod, fn, "limit trimming must consist of one head-keeping `del frames[limit:]` and one tail-keeping `del frames[:-limit]`", construct="limit trimming deletions")
+        ctx.R.undecided("SLC-1", f"limit trimming not recognised ({len(head)} head-keeping and {len(tail)} tail-keeping operations found)")
         return
     h, t = head[0], tail[0]
     parent = mod.parent_of(h)
@@ -51,8 +64,9 @@ def slc1(ctx: Ctx) -> None:
                    construct="limit-trimming condition")
     gs = guards_of(mod, parent, fn)
     if len(gs) == 1 and gs[0][1]:
-        at2 = ["spec.limit is None", "len(frames) > spec.limit"]
-        at3 = ["spec.limit is None", "len(frames) >= spec.limit"]
+        ln = [x for x in lim_names if x in norm(gs[0][0])] or ["spec.limit"]
+        at2 = [f"{ln[0]} is None", f"len(frames) > {ln[0]}"]
+        at3 = [f"{ln[0]} is None", f"len(frames) >= {ln[0]}"]
         okg = False
         for at in (at2, at3):
             try:
@@ -110,9 +124,13 @@ def slc2(ctx: Ctx) -> None:
             raises = [s for s in ast.walk(until) if isinstance(s, ast.If) and norm(s.test) == f"{ov} is None" and isinstance(s.body[-1], ast.Raise)]
             if k == {"outer": ov, "inner": inner} and okw and init and raises:
                 ctx.R.ok("SLC-2", f"extract_until(frame limit) -> StackSlice(outer=<f_back walk from inner to limit>, inner={inner}); raises if limit is not a caller")
-            else:
-                ctx.R.fail("SLC-2", mod, c, "with a frame-valued limit extract_until must walk f_back from inner_frame to the limit, raise if it is not found, and pass StackSlice(outer=<that frame>, inner=inner_frame)",
+            elif k.get("inner") != inner or set(k) != {"outer", "inner"} or ov == inner:
+                ctx.R.fail("SLC-2", mod, c, f"with a frame-valued limit extract_until must pass StackSlice(outer=<the limit frame found by walking f_back>, inner=inner_frame); it passes {k}",
                            construct="extract_until frame-limit mapping")
+            elif not raises:
+                ctx.R.fail("SLC-2", mod, c, "extract_until must raise when the frame-valued limit is not an indirect caller of inner_frame", construct="extract_until frame-limit: no raise")
+            else:
+                ctx.R.undecided("SLC-2", "the f_back walk for a frame-valued limit is not in the recognised inline shape")
         else:
             if k == {"inner": inner, "limit": "limit"}:
                 ctx.R.ok("SLC-2", f"extract_until(int/None limit) -> StackSlice(inner={inner}, limit=limit)")
@@ -279,8 +297,11 @@ def ctx678(ctx: Ctx) -> None:
         if isinstance(s, ast.Assign) and norm(s.targets[0]) == "method" and isinstance(s.value, ast.IfExp):
             n_pairs += 1
             e = s.value
-            if norm(e.test) != sync_v or not isinstance(e.body, ast.Constant) or not isinstance(e.orelse, ast.Constant):
-                ctx.R.fail("CTX-6", mod, s, "the registration method must be chosen by is_sync between a sync and an async name")
+            if norm(e.test) == sync_v and not (isinstance(e.body, ast.Constant) and isinstance(e.orelse, ast.Constant)):
+                ctx.R.undecided("CTX-6", f"method names are chosen by {sync_v} but not between two literals: {norm(s)[:60]}")
+                continue
+            if norm(e.test) != sync_v:
+                ctx.R.fail("CTX-6", mod, s, f"the registration method must be chosen by the callback's own sync flag `{sync_v}`, not by `{norm(e.test)[:40]}`")
                 continue
             pr = (e.body.value, e.orelse.value)
             if pr not in pairs_ok:
